@@ -1245,14 +1245,14 @@ Lemma flush_run_flow outs s o ra :
   let s' := fst (flush_run outs (s, o) ra) in
   let o' := snd (flush_run outs (s, o) ra) in
   (length (p_ahs s) <= a /\ s' = s /\ o' = o) \/
-  (a < length (p_ahs s) /\ inactive (get_obj s (ah_app (get_ah s a))) (p_now s) = true /\ o' = o /\
+  (a < length (p_ahs s) /\ flush_inactive (get_obj s (ah_app (get_ah s a))) (p_now s) = true /\ o' = o /\
    s' = with_apps (shutdown_run s (ah_run (get_ah s a))) (removeN (a_key (get_obj s (ah_app (get_ah s a)))) (p_apps s))) \/
-  (a < length (p_ahs s) /\ inactive (get_obj s (ah_app (get_ah s a))) (p_now s) = false /\
+  (a < length (p_ahs s) /\ flush_inactive (get_obj s (ah_app (get_ah s a))) (p_now s) = false /\
    exists qs, o' = o ++ map OutReq qs /\ flush_flow outs s a s' qs).
 Proof.
   cbn zeta. unfold flush_run. destruct (Nat.leb_spec (length (p_ahs s)) (snd ra)) as [L|L]; [left; repeat split; exact L|right].
   set (a := snd ra) in *. set (ah := get_ah s a). set (ao := get_obj s (ah_app ah)).
-  destruct (inactive ao (p_now s)); [left; repeat split; exact L|right]. split; [exact L|]. split; [reflexivity|].
+  destruct (flush_inactive ao (p_now s)); [left; repeat split; exact L|right]. split; [exact L|]. split; [reflexivity|].
   set (s1 := put_ah_h s a (new_harvest (cur_caps ao))).
   pose proof (filter_harvest_pkgs_flow s1 (ah_app ah) (ah_h ah)) as F.
   pose proof (filter_harvest_pkgs_seen s1 (ah_app ah) (ah_h ah)) as [Fs Fc].
